@@ -1,4 +1,7 @@
 import FrappyModel.Generated.C20
 import FrappyModel.Node.Logging
+import FrappyModel.Small.Control
+import FrappyModel.Small.ExtParams
 import FrappyModel.Small.Rotate
+import FrappyModel.Spec.C18
 import FrappyModel.Spec.C20
